@@ -1,8 +1,16 @@
 import Driver.Encode
 import Driver.Tree
+import Driver.Str
+import Driver.Seq
+import Driver.Hash
 
 def main (args : List String) : IO UInt32 := do
   match args with
   | ["encode"] => Driver.Encode.run; return 0
   | ["tree"] => Driver.Tree.run; return 0
+  | ["str"] => Driver.Str.run; return 0
+  | ["seq"] => Driver.Seq.run; return 0
+  | ["vector"] => Driver.Seq.runVector; return 0
+  | ["hash"] => Driver.Hash.run; return 0
+  | ["hashspec"] => Driver.Hash.runSpec; return 0
   | _ => IO.eprintln "usage: qdriver <module>"; return 2
